@@ -86,6 +86,7 @@ type profile struct {
 	// proposal, campaign) is stepped first and Advance follows it, as etcd's node.run does between `readyc <- rd` and `<-advancec` (the application is
 	// still persisting while the node goroutine keeps receiving).  Added after the seeded change C15-unstable-inplace-truncate: a conflicting append that
 	// arrives in that window rewrote the outstanding Ready's entries in place.
+	script                                                            bool // deferAdv only, 5 nodes: the schedule starts with a scripted prologue (scriptConflictInsideReady), then continues at random
 	prevote                                                           bool // Config.PreVote (+CheckQuorum): library features raftexample leaves off; outside the model, safety predicates only
 }
 
@@ -104,6 +105,7 @@ var profiles = []profile{
 	{name: "member-batch-partition", wTick: 22, wDeliver: 50, wDrop: 4, wPropose: 8, wCampaign: 6, wCrash: 2, wCompact: 1, pDup: 0.1, partition: 25, pHeal: 0.35, member: 12, batch: true},
 	{name: "defer-churn", wTick: 20, wDeliver: 48, wDrop: 5, wPropose: 12, wCampaign: 8, wCrash: 3, wCompact: 2, pDup: 0.15, deferAdv: true},
 	{name: "defer-partition", wTick: 24, wDeliver: 50, wDrop: 3, wPropose: 14, wCampaign: 4, wCrash: 2, wCompact: 2, pDup: 0.1, partition: 30, pHeal: 0.4, deferAdv: true},
+	{name: "defer-script", wTick: 22, wDeliver: 52, wDrop: 3, wPropose: 12, wCampaign: 3, wCrash: 2, wCompact: 2, pDup: 0, partition: 45, pHeal: 0.4, deferAdv: true, script: true},
 	{name: "reorder", wTick: 12, wDeliver: 40, wDrop: 2, wPropose: 10, wCampaign: 5, wCrash: 2, wCompact: 2, pDup: 0.5},
 	{name: "prevote-reorder", wTick: 14, wDeliver: 38, wDrop: 3, wPropose: 8, wCampaign: 10, wCrash: 2, wCompact: 1, pDup: 0.5, prevote: true},
 	{name: "prevote-partition", wTick: 25, wDeliver: 45, wDrop: 4, wPropose: 8, wCampaign: 8, wCrash: 2, wCompact: 1, pDup: 0.3, partition: 30, pHeal: 0.4, prevote: true},
@@ -131,6 +133,7 @@ type sim struct {
 	evNo    int
 	bad     bool
 	ids     []uint64
+	forced  string // profile deferAdv: key of the pool message to deliver next (a newer-term append that conflicts inside a Ready just left un-advanced)
 }
 
 func discardLogger() raft.Logger {
@@ -441,7 +444,22 @@ func (s *sim) drain(nd *simNode) (out []pb.Message, selfAcks int) {
 		// only a follower's Ready is held back: the model's `selfAck` acknowledges the leader's whole log, the real Advance of an OLDER Ready only that
 		// Ready's last index (a follower cannot become leader within the one input that precedes the deferred Advance unless it is alone); a Ready that
 		// carries a snapshot is advanced at once: until then etcd refuses to campaign (hasPendingSnapshot), a state the model does not have
-		if s.prof.deferAdv && s.n > 1 && nd.rn.BasicStatus().RaftState == raft.StateFollower && raft.IsEmptySnap(rd.Snapshot) && (len(rd.Entries) >= 2 || s.rng.Intn(3) == 0) {
+		force := ""
+		if s.prof.deferAdv && len(rd.Entries) >= 2 {
+			// is an append of a newer term waiting whose previous index lies inside the entries just handed out (it will truncate strictly inside them)?
+			first, last := rd.Entries[0].Index, rd.Entries[len(rd.Entries)-1]
+			for k, pm := range s.pool {
+				if m := pm.m; m.To == nd.id && m.Type == pb.MsgApp && len(m.Entries) > 0 && m.Term > last.Term && m.Index >= first && m.Index < last.Index && s.deliverable(k) {
+					force = pm.key
+					break
+				}
+			}
+		}
+		if s.prof.deferAdv && s.n > 1 && nd.rn.BasicStatus().RaftState == raft.StateFollower && raft.IsEmptySnap(rd.Snapshot) && (force != "" || len(rd.Entries) >= 2 || s.rng.Intn(3) == 0) {
+			if force != "" {
+				s.forced = force
+				s.stats["conflicting-append-forced-into-pending-ready"]++
+			}
 			rdc := rd
 			nd.pendRd, nd.pendAck = &rdc, ack
 			break
@@ -771,6 +789,12 @@ func (s *sim) doDeliver() bool {
 	} else {
 		k = cand[s.rng.Intn(len(cand))]
 	}
+	s.deliverAt(k)
+	return true
+}
+
+// deliverAt delivers the pool message with index k (which must be deliverable)
+func (s *sim) deliverAt(k int) {
 	pm := s.pool[k]
 	if s.rng.Float64() < s.prof.pDup {
 		s.stats["duplicated"]++ // stays in the pool: it can be delivered again
@@ -794,7 +818,6 @@ func (s *sim) doDeliver() bool {
 		}
 		return []string{"recv:" + txt}
 	})
-	return true
 }
 
 func (s *sim) doRestart(i int) {
@@ -913,8 +936,64 @@ func (s *sim) repartition() {
 	s.stats["partitions"]++
 }
 
+// ---- scripted prologue of profile defer-script
+
+func (s *sim) deliverMatch(f func(m pb.Message) bool) bool {
+	for k := range s.pool {
+		if f(s.pool[k].m) && s.deliverable(k) {
+			s.deliverAt(k)
+			return true
+		}
+	}
+	return false
+}
+
+func (s *sim) dropMatch(f func(m pb.Message) bool) {
+	for k := len(s.pool) - 1; k >= 0; k-- {
+		if f(s.pool[k].m) {
+			s.removeFromPool(k)
+		}
+	}
+}
+
+func (s *sim) settle(f func(m pb.Message) bool) {
+	for n := 0; n < 400 && !s.bad && s.deliverMatch(f); n++ {
+	}
+}
+
+// scriptConflictInsideReady builds, with ordinary events only (campaign, propose, deliver, drop), the situation the deferred-Advance profiles
+// exist for: follower F (id 1) holds an un-advanced Ready with two entries [A, B] of term 1, B being known to nobody else, when the first append
+// of the leader of term 2 (elected by 3, 4, 5, none of which has B) arrives: previous index = A, entry = its no-op in B's place - a truncation
+// strictly inside the entries the application is still holding.  The deferral and the forced delivery themselves are decided by drain().
+func (s *sim) scriptConflictInsideReady() {
+	const L1, F, L2 = 1, 0, 2 // node indexes: ids 2, 1, 3
+	any := func(pb.Message) bool { return true }
+	toF := func(m pb.Message) bool { return m.To == uint64(F+1) }
+	s.doCampaign(L1)
+	s.settle(any) // elected, no-op replicated and committed everywhere
+	if s.bad || s.nodes[L1].rn.BasicStatus().RaftState != raft.StateLeader {
+		return
+	}
+	s.doPropose(L1) // entry A
+	s.settle(func(m pb.Message) bool { return !toF(m) }) // A reaches 3, 4, 5 and is committed ...
+	s.dropMatch(toF)                                     // ... F misses it and the commit notice
+	s.doPropose(L1)                                      // entry B
+	s.dropMatch(func(m pb.Message) bool { return !toF(m) && m.Type == pb.MsgApp }) // B is sent to F only ...
+	s.settle(func(m pb.Message) bool { return toF(m) && m.Type == pb.MsgApp })      // ... which rejects it (A is missing)
+	s.settle(func(m pb.Message) bool { return m.From == uint64(F+1) && m.Type == pb.MsgAppResp })
+	// the leader's retry [A, B] for F is now in the pool; before it is delivered, node 3 wins term 2 with the votes of 4 and 5
+	s.doCampaign(L2)
+	s.dropMatch(func(m pb.Message) bool { return m.Type == pb.MsgVote && (m.To == uint64(F+1) || m.To == uint64(L1+1)) })
+	s.settle(func(m pb.Message) bool { return m.Type == pb.MsgVote || m.Type == pb.MsgVoteResp })
+	// deliver the old leader's [A, B] to F: drain() finds the new leader's conflicting append in the pool, leaves the Ready un-advanced and forces it next
+	s.deliverMatch(func(m pb.Message) bool { return toF(m) && m.Type == pb.MsgApp && m.From == uint64(L1+1) && len(m.Entries) >= 2 })
+	s.stats["scripted-prologue"]++
+}
+
 func (s *sim) run(events int) {
-	if s.rng.Float64() < 0.7 {
+	if s.prof.script && s.n == 5 {
+		s.scriptConflictInsideReady()
+	} else if s.rng.Float64() < 0.7 {
 		s.doCampaign(s.rng.Intn(s.n))
 	}
 	p := s.prof
@@ -941,6 +1020,21 @@ func (s *sim) run(events int) {
 			} else {
 				s.lagNode = s.rng.Intn(s.n)
 				s.group[s.lagNode] = 1
+			}
+		}
+		if s.forced != "" {
+			key := s.forced
+			s.forced = ""
+			done := false
+			for k, pm := range s.pool {
+				if pm.key == key && s.deliverable(k) {
+					s.deliverAt(k)
+					done = true
+					break
+				}
+			}
+			if done {
+				continue
 			}
 		}
 		up := s.upNodes()
@@ -1104,6 +1198,9 @@ func runRaftsim(args []string) {
 		if *onlyN > 0 {
 			n = *onlyN
 		}
+		if prof.script {
+			n = 5
+		}
 		fmt.Fprintf(w, "R %d %d %s %d\n", n, *one, prof.name, *events)
 		newSim(n, *one, prof, w).run(*events)
 		return
@@ -1121,6 +1218,9 @@ func runRaftsim(args []string) {
 					prof = p
 				}
 			}
+		}
+		if prof.script {
+			n = 5
 		}
 		sd := master.Int63()
 		fmt.Fprintf(w, "R %d %d %s %d\n", n, sd, prof.name, *events)
